@@ -150,6 +150,8 @@ def exAll : String → String → Bool := fun _ _ => true
 def exIsArray (nd : NodeData) : Bool := nd.kind != "DictOfNamedArrays"
 
 example : WFHeap exGraph := (wfHeap_iff _).1 (by decide)
+example : Reach (kidsFn exAll exGraph) 6 2 :=
+  Reach.step (c := 2) (by decide) (Reach.refl 2)
 example : usersList exAll exAll exGraph 6 0 = [2, 2] ∧ preds exAll exGraph 2 = [0, 0] := by decide
 example : usersSet exAll exAll exGraph 6 2 = [5, 6] := by decide
 example : topo exAll exIsArray exGraph 6 = [0, 2, 1, 3, 4, 5] := by decide
